@@ -59,6 +59,9 @@ class SeqPlugin(Plugin):
             kind = desc.elem.kind
             c = z3.Const(name, z3.SeqSort(_sort(kind)))
             return SymSeq(c, kind), ("seqsym", c, kind)
+        if isinstance(desc, api.TmpPath):
+            c = z3.String(name)
+            return sym.SStr(c), ("tmppath", name)
         if isinstance(desc, api.OutFile):
             o = PObj("OutFile", label=name)
             o.fields["nums"] = SymSeq(z3.Empty(z3.SeqSort(z3.RealSort())), "Real")
@@ -78,6 +81,8 @@ class SeqPlugin(Plugin):
             return []
         if rec[0] == "outfile":
             return {"$native": "outfile", "$id": rec[1]}
+        if rec[0] == "tmppath":
+            return {"$native": "tmppath", "$id": rec[1]}
         return NotImplemented
 
     def desc_like(self, ctx, v, name):
@@ -134,7 +139,7 @@ class SeqPlugin(Plugin):
             zi = zi + n
         return obj.t[zi]
 
-    def iterate(self, I, it, node):
+    def _iterate_seq(self, I, it, node):
         if isinstance(it, SymRange):
             raise Unsupported("iteration over a symbolic range needs a loop contract")
         if not isinstance(it, SymSeq):
@@ -165,9 +170,63 @@ class SeqPlugin(Plugin):
     def getattr(self, I, obj, name, node):
         if isinstance(obj, PObj) and obj.clsname == "OutFile" and name == "write":
             return PBuiltin("write", _file_write, obj)
+        if isinstance(obj, PObj) and obj.clsname == "InFile":
+            if name == "readlines":
+                return PBuiltin("readlines", lambda I_, f: PList(list(f.fields["lines"].items)), obj)
+            if name == "readline":
+                def rl(I_, f):
+                    return f.fields["lines"].items.pop(0) if f.fields["lines"].items else ""
+                return PBuiltin("readline", rl, obj)
         return NotImplemented
 
+    def iterate(self, I, it, node):
+        if isinstance(it, PObj) and it.clsname == "InFile":
+            return list(it.fields["lines"].items)
+        return SeqPluginIter(self, I, it, node)
+
+    def reset(self):
+        self.files = {}
+
+    def snapshot(self):
+        return dict(getattr(self, "files", {}))
+
+    def restore(self, snap):
+        self.files = snap
+
+    @staticmethod
+    def _pkey(path):
+        return path if isinstance(path, str) else str(getattr(path, "t", path))
+
+    def open_file(self, I, path, mode="r", **kw):
+        """Ghost file system: a file opened for writing records its chunks; opened for reading it yields
+        what was written to the same path earlier in this activation (else: unsupported)."""
+        if not hasattr(self, "files"):
+            self.files = {}
+        key = self._pkey(path)
+        if not isinstance(mode, str):
+            raise Unsupported("symbolic open() mode")
+        if "w" in mode or "a" in mode:
+            o = PObj("OutFile", label=self.ctx.fresh_label("file"))
+            o.fields["nums"] = SymSeq(z3.Empty(z3.SeqSort(z3.RealSort())), "Real")
+            o.fields["chunks"] = PList([]) if "w" in mode or key not in self.files else self.files[key].fields["chunks"]
+            o.fields["path"] = path
+            self.files[key] = o
+            self.ctx.ghost.setdefault("opened_for_write", []).append(path)
+            return o
+        if key in self.files:
+            src = self.files[key]
+            o = PObj("InFile", label=self.ctx.fresh_label("file"))
+            o.fields["lines"] = PList(list(src.fields["chunks"].items))
+            return o
+        raise Unsupported("open() for reading a file that is not part of the typing context")
+
     def special_call(self, I, e, fr, nm):
+        if nm == "written_to":
+            path = I.eval(e.args[0], fr)
+            f = getattr(self, "files", {}).get(self._pkey(path))
+            return f.fields["chunks"] if f is not None else None
+        if nm == "n_files_written":
+            return len(getattr(self, "files", {}))
         if nm == "file_nums":
             f = I.eval(e.args[0], fr)
             return f.fields["nums"]
@@ -180,6 +239,10 @@ class SeqPlugin(Plugin):
 
     def range_sym(self, a, b, c):
         return SymRange(a, b, c)
+
+
+def SeqPluginIter(plugin, I, it, node):
+    return plugin._iterate_seq(I, it, node)
 
 
 def _nums_of(parts):
@@ -211,6 +274,11 @@ def _nums_of(parts):
 
 
 def _file_write(I, f, s):
+    from .layout import LStr
+
+    if isinstance(s, LStr):
+        f.fields["chunks"].items.append(s)
+        return None
     parts = [s] if isinstance(s, str) else (s.parts if isinstance(s, FStr) else None)
     if parts is None:
         raise Unsupported(f"write of {type(s).__name__}")
@@ -231,4 +299,7 @@ def _file_write(I, f, s):
 
 
 def attach(ctx):
+    from .layout import LayoutPlugin
+
     ctx.plugins.append(SeqPlugin(ctx))
+    ctx.plugins.append(LayoutPlugin(ctx))
